@@ -24,6 +24,10 @@ pub enum ROp {
     Noise(u32),
     /// `FOR Q = 1 TO n : PRINT RND(1) : NEXT Q`: a long walk through the generator's states
     Walk(u32),
+    /// an immediate PRINT whose expression calls RND more than once (nested / side by side)
+    Expr(u8),
+    /// a program that defines a user function called RND (the built-in must stay the built-in)
+    ShadowDef,
 }
 
 #[derive(Clone, Debug, Serialize, Deserialize)]
@@ -169,6 +173,55 @@ fn check(c: &Case, ctx: &mut Ctx) -> Option<Violation> {
                 }
                 distinct_states += 1;
                 ctx.state(m.x);
+            }
+            ROp::Expr(kind) => {
+                let (line, want) = match kind % 3 {
+                    0 => {
+                        m.advance();
+                        ("PRINT RND(RND(1) + 1)", m.advance())
+                    }
+                    1 => {
+                        let a = m.advance();
+                        let b = m.advance();
+                        ("PRINT RND(1) + RND(1)", a + b)
+                    }
+                    _ => {
+                        let a = m.advance();
+                        ("PRINT RND(RND(1) * 0)", a)
+                    }
+                };
+                let call = s.apply(&Op::Line(line.to_string()))?;
+                ctx.calls(1);
+                if let Some(p) = call.panicked() {
+                    return v("panic", format!("panic@{p}"), format!("op {i} `{line}` unwound: {p}"));
+                }
+                let prints: Vec<String> = call.recs.iter().filter_map(|r| if let Rec::Print(s) = r { Some(s.clone()) } else { None }).collect();
+                let (wprints, werr) = match web_line(&mut w, line, ctx) {
+                    Ok(x) => x,
+                    Err(e) => return Some(e),
+                };
+                if !matches!(call.res, Res::Ok) || prints != vec![format!("{}\n", want)] {
+                    return v("sequence-differs", "several calls in one expression".into(), format!("op {i} `{line}` gave {:?} {:?}, the LCG gives {:?} (state {})", call.res, prints, want, m.x));
+                }
+                if wprints != prints {
+                    return v("front-ends-differ", "value".into(), format!("op {i} `{line}`: core {:?} web {:?} {:?}", prints, wprints, werr));
+                }
+                ctx.count("reach.several_rnd_calls_in_one_expression");
+                ctx.state(m.x);
+            }
+            ROp::ShadowDef => {
+                for l in ["5 DEF RND(X) = X / 4", "RUN", "5"] {
+                    let calls = s.line_and_settle(l, 20);
+                    for c in &calls {
+                        if let Some(p) = c.panicked() {
+                            return v("panic", format!("panic@{p}"), format!("op {i} `{l}` unwound: {p}"));
+                        }
+                    }
+                    if let Err(e) = web_line_n(&mut w, l, ctx, 20) {
+                        return Some(e);
+                    }
+                }
+                ctx.count("fault.user_function_named_RND_defined");
             }
             ROp::Prog { draws, zero_every, brk } => {
                 // a program that prints `draws` numbers; RUN and breaks must not disturb the sequence
@@ -383,6 +436,8 @@ impl Prop for C18 {
                 ),
                 10..=12 => ROp::Rnd(rng.pick(&["0", "0.0", "00", "-0"]).to_string()),
                 13..=14 => ROp::Rnd(rng.pick(&["-1", "-0.5", "-100", "-0.0000000000000000001"]).to_string()),
+                15 if rng.chance(1, 2) => ROp::Expr(rng.below(3) as u8),
+                15 if rng.chance(1, 4) => ROp::ShadowDef,
                 15 => ROp::Seed(seed(rng)),
                 16..=17 => ROp::Prog {
                     draws: 1 + rng.below(8) as u32,
